@@ -76,6 +76,86 @@ impl Seek for Disk {
     }
 }
 
+/// copy-on-write disk: shared immutable base + overlay of modified 512-byte pages
+struct CowDisk {
+    base: Rc<Vec<u8>>,
+    overlay: Rc<RefCell<BTreeMap<u64, Box<[u8; 512]>>>>,
+    pos: u64,
+}
+
+impl IoBase for CowDisk {
+    type Error = ();
+}
+impl Read for CowDisk {
+    fn read(&mut self, buf: &mut [u8]) -> Result<usize, ()> {
+        let len = self.base.len() as u64;
+        if self.pos >= len {
+            return Ok(0);
+        }
+        let n = (buf.len() as u64).min(len - self.pos) as usize;
+        let ov = self.overlay.borrow();
+        let mut done = 0;
+        while done < n {
+            let o = self.pos + done as u64;
+            let (pno, inp) = (o / 512, (o % 512) as usize);
+            let k = (512 - inp).min(n - done);
+            match ov.get(&pno) {
+                Some(p) => buf[done..done + k].copy_from_slice(&p[inp..inp + k]),
+                None => buf[done..done + k].copy_from_slice(&self.base[o as usize..o as usize + k]),
+            }
+            done += k;
+        }
+        self.pos += n as u64;
+        Ok(n)
+    }
+}
+impl Write for CowDisk {
+    fn write(&mut self, buf: &[u8]) -> Result<usize, ()> {
+        let len = self.base.len() as u64;
+        if self.pos >= len {
+            return Ok(0);
+        }
+        let n = (buf.len() as u64).min(len - self.pos) as usize;
+        let mut ov = self.overlay.borrow_mut();
+        let mut done = 0;
+        while done < n {
+            let o = self.pos + done as u64;
+            let (pno, inp) = (o / 512, (o % 512) as usize);
+            let k = (512 - inp).min(n - done);
+            let base = &self.base;
+            let p = ov.entry(pno).or_insert_with(|| {
+                let mut b = Box::new([0u8; 512]);
+                let s = (pno * 512) as usize;
+                let e = (s + 512).min(base.len());
+                b[..e - s].copy_from_slice(&base[s..e]);
+                b
+            });
+            p[inp..inp + k].copy_from_slice(&buf[done..done + k]);
+            done += k;
+        }
+        self.pos += n as u64;
+        Ok(n)
+    }
+    fn flush(&mut self) -> Result<(), ()> {
+        Ok(())
+    }
+}
+impl Seek for CowDisk {
+    fn seek(&mut self, pos: SeekFrom) -> Result<u64, ()> {
+        let len = self.base.len() as i128;
+        let n: i128 = match pos {
+            SeekFrom::Start(x) => x as i128,
+            SeekFrom::Current(d) => self.pos as i128 + d as i128,
+            SeekFrom::End(d) => len + d as i128,
+        };
+        if n < 0 {
+            return Err(());
+        }
+        self.pos = n as u64;
+        Ok(self.pos)
+    }
+}
+
 type Fs = FileSystem<Disk>;
 
 fn mount(data: &Rc<RefCell<Vec<u8>>>, budget: &Rc<RefCell<u64>>) -> Fs {
@@ -413,11 +493,11 @@ fn variant(s: &str, how: u8) -> String {
     }
 }
 
-fn run_history(img: &[u8], hist: &[NOp], names: &[String], trace: &mut Vec<u8>) {
-    let data = Rc::new(RefCell::new(img.to_vec()));
-    let budget = Rc::new(RefCell::new(u64::MAX));
+fn run_history(img: &Rc<Vec<u8>>, hist: &[NOp], names: &[String], trace: &mut Vec<u8>) {
+    let overlay = Rc::new(RefCell::new(BTreeMap::new()));
     let r = catch_unwind(AssertUnwindSafe(|| {
-        let fs = mount(&data, &budget);
+        let fs: FileSystem<CowDisk> =
+            FileSystem::new(CowDisk { base: img.clone(), overlay: overlay.clone(), pos: 0 }, FsOptions::new()).expect("mount");
         let mut t: Vec<u8> = Vec::new();
         {
             let root = fs.root_dir();
@@ -460,9 +540,16 @@ fn run_history(img: &[u8], hist: &[NOp], names: &[String], trace: &mut Vec<u8>) 
         Ok(t) => trace.extend_from_slice(&t),
         Err(_) => trace.extend_from_slice(format!("PANIC {}", LAST_PANIC.with(|p| p.borrow().clone())).as_bytes()),
     }
-    // image hash
+    // image hash: the pages that differ from the base, in page order
     let mut h = 0xcbf2_9ce4_8422_2325u64;
-    fnv(&mut h, &data.borrow());
+    for (pno, p) in overlay.borrow().iter() {
+        let s = (*pno * 512) as usize;
+        let e = (s + 512).min(img.len());
+        if img[s..e] != p[..e - s] {
+            fnv(&mut h, &pno.to_le_bytes());
+            fnv(&mut h, &p[..]);
+        }
+    }
     trace.extend_from_slice(format!("IMG {h:016x}\n").as_bytes());
 }
 
@@ -490,12 +577,17 @@ fn c19(args: &[String]) {
     }
     let depth = if thorough { 4 } else { 3 };
     let nthreads: usize = std::thread::available_parallelism().map_or(4, |n| n.get());
-    let total: u64 = (alpha.len() as u64).pow(depth as u32);
+    let mut total: u64 = (alpha.len() as u64).pow(depth as u32);
+    if let Ok(l) = std::env::var("FEATDRV_LIMIT") {
+        total = total.min(l.parse().unwrap_or(total));
+    }
     let chunks: Vec<Vec<u8>> = std::thread::scope(|s| {
         let mut hs = Vec::new();
         for t in 0..nthreads {
             let (img, alpha, names) = (&img, &alpha, &names);
             hs.push(s.spawn(move || {
+                let img: Rc<Vec<u8>> = Rc::new(img.clone());
+                let img = &img;
                 std::panic::set_hook(Box::new(|info| {
                     let msg = if let Some(s) = info.payload().downcast_ref::<&str>() {
                         (*s).to_string()
@@ -522,13 +614,37 @@ fn c19(args: &[String]) {
                     run_history(img, &hist, names, &mut tr);
                     let mut h = 0xcbf2_9ce4_8422_2325u64;
                     fnv(&mut h, &tr);
-                    let ascii_only = hist.iter().all(|op| match op {
-                        NOp::Create(n) | NOp::CreateDir(n) | NOp::Remove(n) | NOp::Open(n, _) => names[*n].is_ascii(),
-                        NOp::Rename(a, b) => names[*a].is_ascii() && names[*b].is_ascii(),
-                        NOp::List => true,
-                    });
+                    // strings used as names by this history
+                    let mut used: Vec<String> = Vec::new();
+                    for op in &hist {
+                        match op {
+                            NOp::Create(n) | NOp::CreateDir(n) | NOp::Remove(n) => used.push(names[*n].clone()),
+                            NOp::Open(n, how) => {
+                                used.push(names[*n].clone());
+                                used.push(variant(&names[*n], *how));
+                            }
+                            NOp::Rename(a, b) => {
+                                used.push(names[*a].clone());
+                                used.push(names[*b].clone());
+                            }
+                            NOp::List => {}
+                        }
+                    }
+                    let ascii_only = used.iter().all(|s| s.is_ascii());
+                    let fold_u = |s: &str| s.chars().flat_map(char::to_uppercase).collect::<String>();
+                    let fold_a = |s: &str| s.chars().map(|c| c.to_ascii_uppercase()).collect::<String>();
+                    // two different names that only full Unicode folding identifies: the one documented difference
+                    let mut case_pair = false;
+                    for (i, a) in used.iter().enumerate() {
+                        for b in used.iter().skip(i + 1) {
+                            if a != b && fold_u(a) == fold_u(b) && fold_a(a) != fold_a(b) {
+                                case_pair = true;
+                            }
+                        }
+                    }
+                    let class = if ascii_only { "ascii" } else if case_pair { "nonascii-case" } else { "nonascii-nocase" };
                     let panicked = tr.windows(5).any(|w| w == b"PANIC");
-                    trace.extend_from_slice(format!("{idx} {h:016x} {} {}\n", if ascii_only { "ascii" } else { "nonascii" }, if panicked { "PANIC" } else { "ok" }).as_bytes());
+                    trace.extend_from_slice(format!("{idx} {h:016x} {class} {}\n", if panicked { "PANIC" } else { "ok" }).as_bytes());
                 }
                 trace
             }));
